@@ -1058,3 +1058,75 @@ def r12_param_block_validated(ck, P, rid='C18-R12'):
             ck.ok(R, where, 'n_params compared under that guard')
         else:
             ck.violation(R, f.name, 'parameter block of %s' % inv.get(K, K), '%s installs the parameter block of %s without any comparison that involves n_params on the path guarded by filter == %s, yet %s reads filter_params at an index computed from the header: a block shorter than width * height + header is copied into an allocation of n_params values and read past its end' % (f.name, inv.get(K, K), inv.get(K, K), ', '.join(sorted(gs))), '%s:%d' % (f.unit.name, f.line))
+
+
+def r13_phase_follows_the_pixel(ck, P, rid='C08-R19'):
+    """T-DEP: the kernel row (phase) of each axis is selected from the fractional part of that axis' sample coordinate *of the pixel being
+    produced*.  In a scanline reader the coordinate is a loop-carried value; a phase computed from a loop-invariant value (the first
+    pixel's coordinate) is right only while the transform does not move that coordinate along the scanline."""
+    from .factors import _loops_of
+    R = ck.rule(rid, 'in every reader of the separable-convolution block, each phase extraction ((coordinate & 0xffff) >> (16 - phase bits)) takes a coordinate that varies with the pixel: it depends on a phi of a loop header or on a coordinate parameter of a per-pixel function, not only on values computed before the pixel loop - under a rotation or shear the y phase changes along a destination scanline', floor=4)
+    n = 0
+    for f in P.functions():
+        sy = Sym(P, f)
+        hdr = {}
+        for x in f.insts():
+            if x.op == 'load':
+                k = sy.header_index(x.a[0])
+                if k is not None and k in (2, 3):
+                    hdr[x.i] = k
+        if not hdr or any(y.op == 'store' and f.last_field(f.path(y.a[1])) == 'image_common.filter_params' for y in f.insts()):
+            continue
+        if f.name == 'analyze_extent':
+            continue
+        loops = _loops_of(f.unit).get(f.name, [])
+        headers = {l['header'] for l in loops}
+        def tagged(o, seen=None):
+            seen = set() if seen is None else seen
+            y = f.v(o)
+            if y is None or y.i in seen:
+                return set()
+            seen.add(y.i)
+            if y.i in hdr:
+                return {hdr[y.i]}
+            if y.op in ('load', 'call', 'phi'):
+                return set()
+            out = set()
+            for a in y.a:
+                if a and a[0] == 'v':
+                    out |= tagged(a, seen)
+            return out
+        def varying(o, seen=None):
+            seen = set() if seen is None else seen
+            if o[0] == 'a':
+                return f.params[o[1]][0] in ('x', 'y')
+            y = f.v(o)
+            if y is None or y.i in seen:
+                return False
+            seen.add(y.i)
+            if y.op == 'phi':
+                if y.bb.id in headers:
+                    return True
+                return any(varying(a, seen) for a in y.a)
+            if y.op in ('load', 'call'):
+                return False
+            return any(varying(a, seen) for a in y.a if a)
+        for x in f.insts():
+            if x.op not in ('lshr', 'ashr'):
+                continue
+            t = tagged(x.a[1])
+            if not t or len(t) != 1:
+                continue
+            # the shifted value: (coordinate & 0xffff)
+            y = f.v(x.a[0])
+            if y is None or y.op != 'and':
+                continue
+            n += 1; ck.saw(f)
+            axis = 'x' if 2 in t else 'y'
+            where = '%s: %s phase at %s' % (f.name, axis, x.loc())
+            if varying(x.a[0]):
+                ck.ok(R, where, 'from the pixel\'s own coordinate')
+            else:
+                ck.violation(R, f.name, '%s phase at %s' % (axis, x.loc()), '%s selects the %s kernel row from a coordinate that does not vary with the pixel (it is computed before the pixel loop): the phase of the first pixel of the scanline is used for all of them, which is wrong as soon as the transform moves the %s sample coordinate along the scanline (rotation, shear)' % (f.name, axis, axis), x.loc())
+    if n == 0:
+        raise AnalysisBroken('%s: no phase extraction found in the readers of the separable-convolution block' % rid)
